@@ -231,6 +231,7 @@ def stream_nodes(ctx: Ctx) -> Stream:
 	per_module = ctx.scale(60, 100)
 	cases = []
 	for mp in mods:
+		cold_sexp: tuple[str, int] | None = None
 		for restored in (False, True):
 			try:
 				ep = pr.proj.entrypoint(mp)
@@ -244,8 +245,16 @@ def stream_nodes(ctx: Ctx) -> Stream:
 			filepath = mp.replace('.', os.sep) + '.py'
 			with chdir(pr.cwd_for(mp)):
 				exists = os.path.exists(filepath)
-				ops = [f'tree\t{c15.lark_sexp(root.source)}', f"file\t{'1' if exists else '0'}\t{hx(filepath)}\t{hx(pr.sources[mp])}"]
-				real = [f'ok {c15.tree_size(root.source)}', f'ok {count_lines(pr.sources[mp])}']
+				if restored and cold_sexp is not None and diskproj.is_restored(root):
+					# the model restores the COLD tree itself (C16.restore); the real side is the tree the cache gave back
+					ops = [f'tree\t{cold_sexp[0]}', 'restore']
+					real = [f'ok {cold_sexp[1]}', 'ok']
+				else:
+					ops = [f'tree\t{c15.lark_sexp(root.source)}']
+					real = [f'ok {c15.tree_size(root.source)}']
+					cold_sexp = (c15.lark_sexp(root.source), c15.tree_size(root.source))
+				ops.append(f"file\t{'1' if exists else '0'}\t{hx(filepath)}\t{hx(pr.sources[mp])}")
+				real.append(f'ok {count_lines(pr.sources[mp])}')
 				for k, p in enumerate(sample_paths(rng, nodes, paths, per_module)):
 					ops.append(f'smat\t{hx(p)}')
 					real.append(real_smat(nodes, p))
@@ -577,8 +586,10 @@ def add_finding(res: SearchResult, label: str, key: str, path: str, suffix: str,
 	res.findings.append(Finding(key=f'{key}{suffix}', what=f'{label}: {what}', replay=replay))
 
 
-def check_tree(label: str, src: str, root: Any, literals: set[str], res: SearchResult, suffix: str) -> None:
-	"""all span statements for one tree (entries through the Entry interface only)"""
+def check_tree(label: str, src: str, root: Any, literals: set[str], res: SearchResult, suffix: str) -> dict[str, tuple[Any, Any, Any, Any]]:
+	"""all span statements for one tree (entries through the Entry interface only); returns path → span of every entry, so that
+	the spans of the cache-restored tree can be compared with the cold ones node by node"""
+	recorded: dict[str, tuple[Any, Any, Any, Any]] = {}
 	starts = line_starts(src)
 	eof = (len(starts), len(src) - starts[-1] + 1)
 	ptoks = py_tokens(src)
@@ -617,10 +628,13 @@ def check_tree(label: str, src: str, root: Any, literals: set[str], res: SearchR
 			terminals(c, acc)
 
 	def walk(e: Any, path: str) -> None:
-		if res.findings and len(res.findings) > 20:
-			return
 		s = span(e)
+		recorded[path] = s
 		if e.is_empty:
+			return
+		if len(res.findings) > 40:
+			for i, c in enumerate(e.children):  # keep recording, stop reporting
+				walk(c, f'{path}.{c.name}[{i}]' if [x.name for x in e.children].count(c.name) != 1 else f'{path}.{c.name}')
 			return
 		if s == (0, 0, 0, 0):
 			res.histogram['entries-without-span'] = res.histogram.get('entries-without-span', 0) + 1
@@ -685,6 +699,26 @@ def check_tree(label: str, src: str, root: Any, literals: set[str], res: SearchR
 				walk(c, cp)
 
 	walk(root, root.name)
+	return recorded
+
+
+def compare_with_cold(label: str, src: str, cold: dict[str, Any], warm: dict[str, Any], res: SearchResult) -> None:
+	""""holds equally after the tree was restored from the cache": the restored tree must report, node by node, the spans the
+	cold parse reported (the code's own answer "no position" is not a reason to skip a node that had one)"""
+	if list(cold.keys()) != list(warm.keys()):
+		res.findings.append(Finding(key='paths-differ-after-restore', what=f'{label}: the restored tree has {len(warm)} entries, the cold parse {len(cold)}', replay={'module': label, 'source': src[:20000]}))
+		return
+	n = 0
+	for p, sc in cold.items():
+		if warm[p] != sc:
+			kind = 'span-lost-after-restore' if warm[p] == (0, 0, 0, 0) else 'span-differs-after-restore'
+			res.findings.append(Finding(key=kind, what=f'{label}: {p} has span {sc} on the cold parse and {warm[p]} after the cache restore', replay={'module': label, 'path': p, 'cold': list(sc), 'restored': list(warm[p]), 'source': src[:20000]}))
+			n += 1
+			if n >= 3:
+				break
+
+
+_COLD_QUOTES: dict[tuple[str, str], Any] = {}
 
 
 def expected_marks(src: str, s: tuple[int, int, int, int]) -> tuple[str, str, set[int]] | None:
@@ -721,6 +755,10 @@ def check_quotations(pr: Project, mp: str, ep: Any, rng: random.Random, limit: i
 				add_finding(res, label, f'source-map-raises:{exc_enum(e)}', p, suffix, f'node.source_map of {p} raises {exc_enum(e)}', {'module': label, 'path': p, 'source': src[:20000]})
 				continue
 			q = render_quotation(node, k)
+			if not suffix:
+				_COLD_QUOTES[(label, p)] = q
+			elif (label, p) in _COLD_QUOTES and _COLD_QUOTES[(label, p)] != q:
+				res.findings.append(Finding(key='quotation-differs-after-restore', what=f'{label}: the report for {p} is {_COLD_QUOTES[(label, p)]} on the cold parse and {q} after the cache restore', replay={'module': label, 'path': p, 'source': src[:20000]}))
 			replay = {'module': label, 'path': p, 'span': list(s), 'quotation': q, 'source': src[:20000]}
 			if None in s:
 				if isinstance(q, str):
@@ -779,8 +817,10 @@ def search_spans(ctx: Ctx) -> tuple[SearchResult, SearchResult]:
 	seen = set()
 	exercised = 0
 	_FRESH_SEEN.clear()
+	_COLD_QUOTES.clear()
 	for mp in mods:
 		sampled: list[str] | None = None
+		cold_spans: dict[str, Any] = {}
 		for restored in (False, True):
 			suffix = ':restored' if restored else ''
 			try:
@@ -799,7 +839,12 @@ def search_spans(ctx: Ctx) -> tuple[SearchResult, SearchResult]:
 			res.cases += 1
 			seen.add(hash(pr.sources[mp]))
 			try:
-				check_tree(pr.labels[mp], pr.sources[mp], root, literals, res, suffix)
+				spans = check_tree(pr.labels[mp], pr.sources[mp], root, literals, res, suffix)
+				if restored:
+					compare_with_cold(pr.labels[mp], pr.sources[mp], cold_spans, spans, res)
+					res.histogram['entries-compared-with-cold'] = res.histogram.get('entries-compared-with-cold', 0) + len(spans)
+				else:
+					cold_spans = spans
 			except Exception as e:  # noqa: BLE001
 				add_finding(res, pr.labels[mp], f'span-raises:{exc_enum(e)}', 'file_input', suffix, f'reading the spans raises {exc_enum(e)}', {'module': pr.labels[mp], 'source': pr.sources[mp][:20000]})
 			sampled = check_quotations(pr, mp, ep, rng, ctx.scale(40, 60), resq, suffix, sampled if restored else None)
@@ -832,7 +877,7 @@ def search_spans(ctx: Ctx) -> tuple[SearchResult, SearchResult]:
 	resq.distinct = resq.cases
 	if not exercised and not res.findings and not resq.findings:
 		raise common.InfraError('no module was restored from the on-disk cache: the restored half of the search did not run')
-	res.note = 'history: every 4th generated module is rewritten after its tree was cached (mtime changed only in its fractional second) and re-parsed by a fresh App on the same cache directory — the spans must delimit the current text; restrictions: positions inside a CPython STRING token are exempt from the boundary/content checks (quoted annotations are lexed by the grammar as QUOTE NAME QUOTE); CPython NAME tokens that are Python keywords or anonymous literals of grammar.lark, and `# type: ignore` comments (ignored by the grammar) need not be terminals; f-strings are folded into one STRING; the end of a multi-line CPython STRING token is recomputed from its start and text (CPython 3.12 miscounts it after non-ASCII text); files with CR are excluded; for a text without final line feed (lines+1, 1) counts as end of input'
+	res.note = 'the cache-restored tree is compared with the cold parse node by node (every entry: span; sampled nodes: printed quotation); history: every 4th generated module is rewritten after its tree was cached (mtime changed only in its fractional second) and re-parsed by a fresh App on the same cache directory — the spans must delimit the current text; restrictions: positions inside a CPython STRING token are exempt from the boundary/content checks (quoted annotations are lexed by the grammar as QUOTE NAME QUOTE); CPython NAME tokens that are Python keywords or anonymous literals of grammar.lark, and `# type: ignore` comments (ignored by the grammar) need not be terminals; f-strings are folded into one STRING; the end of a multi-line CPython STRING token is recomputed from its start and text (CPython 3.12 miscounts it after non-ASCII text); files with CR are excluded; for a text without final line feed (lines+1, 1) counts as end of input'
 	resq.note = 'an empty column range is shown by one caret at its position (the renderer\'s documented minimum); nodes whose span has no position (0,0,0,0) must not be quoted at all (regression of fix dc3e568); a None position or a raising renderer is a finding (regression of fix 46d0462); CRLF files excluded'
 	return res, resq
 
